@@ -7,6 +7,7 @@ from symx.api import harness
 from harness.common import mk_element, fake_ctx, XSI_NS
 
 from spyne import Application, Service, rpc, ComplexModel
+from spyne.model.binary import ByteArray
 from spyne.model.primitive import (Integer, Unicode, Decimal, DateTime, Date, Time, Boolean, Duration, Integer8, Integer16,
     Integer32, Integer64, UnsignedInteger8, UnsignedInteger32)
 from spyne.model.complex import Array, XmlAttribute, XmlData
@@ -217,7 +218,9 @@ BOUNDED = {'Integer8': (Integer8, -2 ** 7, 2 ** 7 - 1), 'Integer16': (Integer16,
            'Integer32': (Integer32, -2 ** 31, 2 ** 31 - 1), 'Integer64': (Integer64, -2 ** 63, 2 ** 63 - 1),
            'UnsignedInteger8': (UnsignedInteger8, 0, 2 ** 8 - 1), 'UnsignedInteger32': (UnsignedInteger32, 0, 2 ** 32 - 1)}
 LEAF = [(k, v[0]) for k, v in sorted(BOUNDED.items())] + [('Integer', Integer), ('Decimal', Decimal), ('Boolean', Boolean), ('Date', Date), ('Time', Time),
-        ('DateTime naive', DateTime), ('DateTime offset', DateTime), ('Duration', Duration), ('Unicode', Unicode)]
+        ('DateTime naive', DateTime), ('DateTime offset', DateTime), ('Duration', Duration), ('Unicode', Unicode),
+        ('ByteArray chunks=(3,)', ByteArray), ('ByteArray chunks=(1, 2)', ByteArray), ('ByteArray chunks=(2, 2)', ByteArray),
+        ('ByteArray(hex) chunks=(1, 1)', ByteArray(encoding='hex'))]
 XCTX = {}
 
 
@@ -252,10 +255,32 @@ def leaf_roundtrip(sx, p):
     elif label == 'Duration':
         v = sx.timedelta('v', maxdays=9999)
         sx.assume(sx.td_microseconds(v) >= 0)
+    elif label.startswith('ByteArray'):
+        shape = eval(label.split('chunks=')[1])
+        v = tuple(sx.text('c%d' % j, n, lo=0, hi=255, bytes_=True) for j, n in enumerate(shape))
     else:
         v = sx.text('v', 3, alphabet='a <&é')
-    text = app.out_protocol.to_unicode(T, v)
-    back = prot.from_element(ctx, T, mk_element(sx, q('x'), text=text, nsmap={None: TNS}))
+    if sx.symbolic:
+        if label.startswith('ByteArray'):
+            text = app.out_protocol.to_unicode(T, v, app.out_protocol.binary_encoding)      # as byte_array_to_parent does
+        else:
+            text = app.out_protocol.to_unicode(T, v)
+        back = prot.from_element(ctx, T, mk_element(sx, q('x'), text=text, nsmap={None: TNS}))
+    else:
+        # native: the protocol's own element writer and a real lxml element
+        from lxml import etree
+        parent = etree.Element('parent')
+        app.out_protocol.to_parent(ctx, T, v, parent, TNS, 'x')
+        back = prot.from_element(ctx, T, etree.fromstring(etree.tostring(parent))[0])
+    if label.startswith('ByteArray'):
+        if not isinstance(back, (list, tuple)):
+            return False
+        whole, got = b'', b''
+        for c in v:
+            whole = whole + c
+        for c in back:
+            got = got + c
+        return sx.eq(got, whole)
     if label == 'DateTime offset':
         return sx.And(sx.eq(back, v), sx.eq(sx.offset_minutes(back), sx.offset_minutes(v)))
     if label == 'Duration':
